@@ -107,3 +107,12 @@ func probeReset() bool {
 	}
 	return len(ids) >= 2
 }
+
+// probeMgFix reports whether the tree under test syncs the Maglev LUT map around the frontend updates (updates
+// before, deletions after) instead of completely before them.  The three-map model has both orders (k_mgfix).
+func probeMgFix() bool {
+	sc := maglevScenario()
+	w := newWorld(sc.npips)
+	ri := w.run(sc.steps)
+	return !ri.mgBad
+}
